@@ -924,6 +924,21 @@ pub fn main(a: &vcommon::Args) {
                     run(&mut out, &json!({"ops": ops}), &peers, local, other, relay);
                 }
             }
+            // the candidate cache around its bound: m distinct candidates, two of them reported again
+            for m in [1usize, 19, 20, 21, 22, 27] {
+                for again in [0usize, 1, 5] {
+                    let mut ops: Vec<Value> = (0..m).map(|k| json!({"a": "cand", "k": k, "f": k % 2})).collect();
+                    ops.push(json!({"a": "cand", "k": again % m, "f": 0}));
+                    ops.push(json!({"a": "cand", "k": (again + 3) % m, "f": 1}));
+                    ops.push(json!({"a": "cand", "k": 40, "f": 2}));
+                    ops.push(json!({"a": "conn", "p": 0, "kind": "rin"}));
+                    ops.push(json!({"a": "open", "i": 0, "r": "ok"}));
+                    ops.push(json!({"a": "conn", "p": 1, "kind": "rout"}));
+                    ops.push(json!({"a": "in_open", "i": 0}));
+                    ops.push(json!({"a": "in_msg", "i": 0, "j": 0, "m": "connect", "addrs": ["d1"]}));
+                    run(&mut out, &json!({"ops": ops}), &peers, local, other, relay);
+                }
+            }
             println!("runs={} events={}", out.run, out.events);
             out.finish();
         }
